@@ -34,6 +34,10 @@ CONSTANTS DEV_CacheHitNoInfoMerge, MUT_CacheAfterRefs
 \*   "pointerMemo"  JSON-Pointer fragments are memoised per target DOCUMENT by their text - although a pointer
 \*                  is evaluated against the RESOURCE the rest of the URI selects
 CONSTANT MUT_Resolver
+\* CheckKnown = FALSE: universes that show the known finding KF-crossdoc-C03 (a Loader document referring to a resource
+\* embedded in the root: the machine below, like the code, asks the Loader for it) are exempt from RefinesResolve;
+\* with TRUE TLC must report them (selftest)
+CONSTANT CheckKnown
 
 VARIABLES U,        \* the universe (constant along a behaviour)
           dr,       \* its draft
@@ -164,6 +168,7 @@ L0ok == ResolveOK(U, dr) /\ ~NeedFault
 
 \* refinement at termination
 RefinesResolve ==
+  (CheckKnown \/ ~HasCrossEmb(U, dr)) =>
   /\ status = "ok"  => /\ L0ok
                        /\ \A t \in targets :
                             t.t = Designates(U, dr, t.a, Node(U, t.a)[IF t.kind = "ref" THEN "ref" ELSE "dynamicRef"])
